@@ -25,6 +25,18 @@ fn in_own_module(t: &TypeSpec, v: u8) -> bool {
 /// Generic wrappers: (letter, lifecycle). `GV<'a, T>` (kind 3) also carries a lifetime.
 pub const GEN_KINDS: [(&str, &str); 4] = [("S", "singleton"), ("R", "request_scoped"), ("T", "transient"), ("V", "request_scoped")];
 
+/// How error handler `idx` is written: 0 = free function, 1 = method of the error type (`&self` is the
+/// error), 2 = method of another, injected type (`&self` is a singleton, the error is the second input).
+pub fn err_handler_style(idx: usize) -> u8 {
+    [0, 1, 0, 2, 0, 1][idx % 6]
+}
+
+/// Is constructor variant `v` of type `i` written as a static method of the type it builds?
+fn ctor_is_method(spec: &AppSpec, i: usize, v: u8) -> bool {
+    let t = &spec.types[i];
+    (i + t.inputs.len()) % 3 == 1 && !in_own_module(t, v) && t.view_of.is_none() && !t.prebuilt
+}
+
 fn lifecycle_attr(l: Life) -> &'static str {
     match l {
         Life::Singleton => "singleton",
@@ -148,6 +160,11 @@ pub fn emit_module(k: usize, spec: &AppSpec) -> String {
                 let _ = writeln!(s, "pub mod cs{i}_{v} {{\nuse super::*;");
             }
             let fn_name = if in_module { "build".to_string() } else { format!("c{i}_{v}") };
+            // a third of the plain constructors are static methods of the type they build (`#[pavex::methods]` impl block)
+            let as_method = ctor_is_method(spec, i, v);
+            if as_method {
+                let _ = writeln!(s, "#[pavex::methods]\nimpl T{i} {{");
+            }
             let _ = writeln!(s, "#[pavex::{}(id = \"M{k}_C{i}_{v}\"{flag})]", lifecycle_attr(t.attr_life.unwrap_or(t.life)));
             let _ = writeln!(s, "pub {asy}fn {fn_name}{lt_decl}({sig}) -> {ret} {{");
             let _ = writeln!(s, "    crate::rt::enter(\"{cn}\");");
@@ -161,7 +178,7 @@ pub fn emit_module(k: usize, spec: &AppSpec) -> String {
             } else {
                 let _ = writeln!(s, "    let out = {make};\n    crate::rt::exit(\"{cn}\", \"ok\");\n    out\n}}\n");
             }
-            if in_module {
+            if in_module || as_method {
                 s.push_str("}\n\n");
             }
         }
@@ -324,13 +341,29 @@ pub fn emit_module(k: usize, spec: &AppSpec) -> String {
             }
             CompKind::ErrHandler { err, default } => {
                 let d = if *default { ", default = true" } else { "" };
-                let _ = writeln!(s, "#[pavex::error_handler(id = \"M{k}_X{idx}\"{d})]\npub {asy}fn x{idx}(#[px(error_ref)] e: &E{err}, {sig}) -> Response {{");
+                let style = err_handler_style(idx);
+                match style {
+                    // a method of the error type: `&self` is the error
+                    1 => {
+                        let _ = writeln!(s, "#[pavex::methods]\nimpl E{err} {{\n#[pavex::error_handler(id = \"M{k}_X{idx}\"{d})]\npub {asy}fn x{idx}({}&self, {sig}) -> Response {{\n    let e = self;", if sig.is_empty() { "" } else { "#[px(error_ref)] " });
+                    }
+                    // a method of another (injected) type: the error is the second input
+                    2 => {
+                        let _ = writeln!(s, "pub struct H{idx};\n#[pavex::methods]\nimpl H{idx} {{\n#[pavex::singleton(id = \"M{k}_H{idx}\")]\npub fn new() -> Self {{ H{idx} }}\n#[pavex::error_handler(id = \"M{k}_X{idx}\"{d})]\npub {asy}fn x{idx}(&self, #[px(error_ref)] e: &E{err}, {sig}) -> Response {{");
+                    }
+                    _ => {
+                        let _ = writeln!(s, "#[pavex::error_handler(id = \"M{k}_X{idx}\"{d})]\npub {asy}fn x{idx}(#[px(error_ref)] e: &E{err}, {sig}) -> Response {{");
+                    }
+                }
                 let _ = writeln!(s, "    crate::rt::enter(\"{name}\");\n    crate::rt::note(\"{name}\", \"error\", &e.to_string());\n{body}    crate::rt::exit(\"{name}\", \"ok\");");
                 let _ = writeln!(
                     s,
                     "    Response::new(pavex::http::StatusCode::from_u16({}).unwrap()).set_typed_body(\"eh:{name}\".to_string())\n}}\n",
                     430 + (*err as u16 % 20)
                 );
+                if style != 0 {
+                    s.push_str("}\n\n");
+                }
             }
             CompKind::Observer => {
                 let _ = writeln!(s, "#[pavex::error_observer(id = \"M{k}_X{idx}\")]\npub {asy}fn x{idx}(e: &pavex::Error, {sig}) {{");
@@ -360,6 +393,11 @@ pub fn emit_module(k: usize, spec: &AppSpec) -> String {
             if !explicit {
                 let _ = writeln!(s, "    bp0.constructor(M{k}_G{});", GEN_KINDS[kind as usize].0);
             }
+        }
+    }
+    for (idx, c) in spec.comps.iter().enumerate() {
+        if matches!(c.kind, CompKind::ErrHandler { .. }) && err_handler_style(idx) == 2 {
+            let _ = writeln!(s, "    bp0.constructor(M{k}_H{idx});");
         }
     }
     if spec.peel && !spec.types.is_empty() && spec.comps.iter().any(|c| c.kind == CompKind::Handler) {
